@@ -67,14 +67,18 @@ def run(c):
         "retries, temporary and permanent errors of the next hop at every stage of the dialogue, a next hop that PANICS at a scripted stage (Start/AddRcpt/Body/Commit; "
         "panic value a string, an error, a runtime error or a custom type) with panic recovery active (dontRecover=false, the production default) while Close waits or other "
         "messages are due - the panic must stay inside the dispatch goroutine (the harness recovers at the top of every goroutine it starts for the code: anything arriving there "
-        "would have killed the process), the message must end up quarantined, everything else goes on -, dispatched entries whose spool entry cannot be opened at that moment "
+        "would have killed the process), the message must end up quarantined, everything else goes on -, a bounce pipeline (Queue.dsnPipeline) that takes the failure report of every message "
+        "rejected for good or out of tries (three in four messages have a return path; every third report is refused by the bounce pipeline; `tp<i>.16-19`: the bounce pipeline PANICS while it takes "
+        "the report) and is SLOW for whatever the attempt leaves behind: a submission made by any goroutine other than the dispatch goroutine is scheduled last, so a shutdown overlaps with it - "
+        "when Close returns no goroutine the queue's code started may still be at work and whatever is gone from the spool must have its terminal outcome (accepted, or report answered) -, dispatched entries whose spool entry cannot be opened at that moment "
         "(meta-data missing / undecodable, header undecodable; restored afterwards), semaphore capacity 1-3, zero or one shutdown at a random position, a lazily scheduled "
         "tick goroutine in a third of the scenarios, 12% deliberately disabled choices). What a parked goroutine can do is decided from the kind and operand of the "
         "statement it is parked at (resolved by reflection against the real wheel/queue: any slot collection, helper methods with their own locks, buffered channels), "
         "so refactored code is explored too. The resulting state (enabledness of every choice, program counters, wheel content as a multiset, dispatch log with times, spool, "
         "real WaitGroup counter, semaphore) is compared with the Lean model run on the same schedule; every scenario is then drained and the property is evaluated on the real "
         "execution (monitor: per-entry exactly-once accounting, timely timer, shutdown, WaitGroup/semaphore leaks, spool). free mode: real scheduler and clock, seeded yields and "
-        "at most 2 long delays at the same points, one message's meta-data out of reach for a while, then a restart on the same spool (monitor only; -race in the thorough tier). "
+        "at most 2 long delays at the same points, one message's meta-data out of reach for a while, a bounce pipeline that in a third of the scenarios holds every failure report until the shutdown has begun "
+        "(checked the moment Close returns: nothing gone from the spool without its outcome), then a restart on the same spool (monitor only; -race in the thorough tier). "
         "distinct = distinct schedules",
         explanation="theorems over all schedules of the small-step model; model tied to the code by the regenerated synchronisation skeleton (T1) and step-level differential runs (T2)",
         search=search,
